@@ -674,3 +674,349 @@ Proof.
   { unfold chars_required. cbn [map]. unfold item_len. cbn [fst snd option_map]. rewrite repeat_length, Z2Nat.id by lia. cbn [length]. vm_compute. reflexivity. }
   split; [exact E|]. intros csize s. unfold compose_m. rewrite E. reflexivity.
 Qed.
+
+(* ================================================================ histories over URI objects, query lists and strings *)
+(* A store with three kinds of things the caller holds: URI objects (as in Proofs/LedgerHistory.v), query lists, and
+   composed strings ([None]: already released).  One ledger, any fault plan.  The caller is the documented one:
+   after a failed dissect *dest is not used; a list / string is released once (the slot is then empty, a further
+   release of that slot is uriFreeQueryListMm(NULL) / nothing). *)
+Inductive qhop :=
+| QUri (op : hop)                                        (* any step of Proofs/LedgerHistory.v on the URI objects *)
+| QDissect (pts : bool) (bc : break_conv) (t : text)     (* a new list when the call succeeds *)
+| QCompose (stp nb : bool) (i : nat)                     (* a new string from list i when the call succeeds *)
+| QFreeList (i : nat)                                    (* uriFreeQueryListMm on list i *)
+| QFreeString (i : nat).                                 (* the caller frees string i through the manager *)
+
+Definition qstate := (list muri * list mqlist * list (option nat) * mstate)%type.
+Definition q_uris (st : qstate) : list muri := fst (fst (fst st)).
+Definition q_lists (st : qstate) : list mqlist := snd (fst (fst st)).
+Definition q_strs (st : qstate) : list (option nat) := snd (fst st).
+Definition q_mem (st : qstate) : mstate := snd st.
+
+Section History.
+Variable csize : N.
+
+Definition qstep (st : qstate) (op : qhop) : qstate :=
+  let '(uris, lists, strs, s) := st in
+  match op with
+  | QUri h => let (uris', s') := hstep csize (uris, s) h in (uris', lists, strs, s')
+  | QDissect pts bc t =>
+    match dissect_m csize pts bc t s with
+    | (DMOk items _, s') => (uris, lists ++ [items], strs, s')
+    | (DMMalloc _, s') => (uris, lists, strs, s')
+    end
+  | QCompose stp nb i =>
+    match nth_error lists i with
+    | Some l => match compose_m csize stp nb (erase_q l) s with
+                | (CMOk _ b, s') => (uris, lists, strs ++ [Some b], s')
+                | (CMErr _, s') => (uris, lists, strs, s')
+                end
+    | None => st
+    end
+  | QFreeList i =>
+    match nth_error lists i with
+    | Some l => (uris, upd lists i [], strs, free_query_list_m l s)
+    | None => st
+    end
+  | QFreeString i =>
+    match nth_error strs i with
+    | Some (Some b) => (uris, lists, upd strs i None, free_blk b s)
+    | _ => st
+    end
+  end.
+
+Definition qrun (ops : list qhop) (st : qstate) : qstate := fold_left qstep ops st.
+
+Definition list_blocks (lists : list mqlist) : list nat := flat_map mqlist_blocks lists.
+Definition str_blocks (strs : list (option nat)) : list nat := flat_map blk_list strs.
+
+(* the ledger holds exactly the blocks of the URI objects, of the lists and of the strings *)
+Definition qbalanced (st : qstate) : Prop :=
+  wf (q_mem st) /\ Forall (fun m => consistent m /\ sane m) (q_uris st)
+  /\ forall x, L (q_mem st) x = cnt (all_blocks (q_uris st)) x + cnt (list_blocks (q_lists st)) x + cnt (str_blocks (q_strs st)) x.
+
+(* ---- the steps of Proofs/LedgerHistory.v with other holders of blocks around ([F]: what they hold) *)
+Definition balancedF (F : nat -> nat) (objs : list muri) (s : mstate) : Prop :=
+  wf s /\ Forall (fun m => consistent m /\ sane m) objs /\ forall x, L s x = cnt (all_blocks objs) x + F x.
+
+Lemma balancedF_owns F objs s i m : balancedF F objs s -> nth_error objs i = Some m -> owns m s /\ sane m.
+Proof.
+  intros (W & Fa & B) H. destruct (nth_Forall _ _ _ _ Fa H) as [C Sn]. split; [|exact Sn]. split; [exact C|].
+  intros x. rewrite (B x). pose proof (nth_blocks _ _ _ x H). lia.
+Qed.
+
+Lemma hstep_framed F objs s op : balancedF F objs s ->
+  let st' := hstep csize (objs, s) op in
+  balancedF F (fst st') (snd st') /\ bad_frees (snd st') = bad_frees s.
+Proof.
+  intros Bal. pose proof Bal as (W & Fa & B). cbv zeta. destruct op as [t|i mask|i|compat i j|dr i j|i]; cbn [hstep].
+  - (* parse *)
+    pose proof (parse_m_no_residue t s W) as R. destruct (parse_m t s) as [[m|pos|] s'] eqn:EP; cbn [fst snd].
+    + destruct R as (W' & E' & O' & _ & P'). split; [|apply E'].
+      split; [exact W'|]. split.
+      * apply Forall_app. split; [exact Fa|]. constructor; [|constructor]. split; [apply O'|exact (parse_m_sane _ _ _ _ EP)].
+      * intros x. apply cnt_Permutation with (x := x) in P'. rewrite all_blocks_app, !cnt_app in *. unfold all_blocks at 2. cbn [flat_map].
+        rewrite app_nil_r. specialize (B x). unfold L in *. lia.
+    + destruct R as (W' & E' & P'). split; [|apply E']. split; [exact W'|]. split; [exact Fa|].
+      intros x. apply cnt_Permutation with (x := x) in P'. unfold L in *. rewrite P'. apply B.
+    + destruct R as (W' & E' & P' & _). split; [|apply E']. split; [exact W'|]. split; [exact Fa|].
+      intros x. apply cnt_Permutation with (x := x) in P'. unfold L in *. rewrite P'. apply B.
+  - (* normalize *)
+    destruct (nth_error objs i) as [m|] eqn:EN; [|cbn [fst snd]; auto].
+    destruct (balancedF_owns _ _ _ _ _ Bal EN) as [O Sn].
+    pose proof (normalize_m_spec csize mask m s W O (fun _ => Sn)) as R. pose proof (normalize_m_sane csize mask m s Sn) as Sn'.
+    destruct (normalize_m csize mask m s) as [[rc m'] s']. cbn [fst snd] in *. destruct R as (W' & E' & C' & A' & _).
+    split; [|apply E'].
+    split; [exact W'|]. split; [apply upd_Forall; [exact Fa|split; assumption]|].
+    intros x. pose proof (upd_blocks objs i m m' x EN). specialize (A' x). specialize (B x). lia.
+  - (* make owner *)
+    destruct (nth_error objs i) as [m|] eqn:EN; [|cbn [fst snd]; auto].
+    destruct (balancedF_owns _ _ _ _ _ Bal EN) as [O Sn].
+    pose proof (make_owner_m_spec csize m s W O) as R. pose proof (make_owner_m_sane csize m s Sn) as Sn'.
+    destruct (make_owner_m csize m s) as [[rc m'] s']. cbn [fst snd] in *. destruct R as (W' & E' & C' & A' & _).
+    split; [|apply E'].
+    split; [exact W'|]. split; [apply upd_Forall; [exact Fa|split; assumption]|].
+    intros x. pose proof (upd_blocks objs i m m' x EN). specialize (A' x). specialize (B x). lia.
+  - (* add base *)
+    destruct (nth_error objs i) as [r|] eqn:EI; [|cbn [fst snd]; auto]. destruct (nth_error objs j) as [b|] eqn:EJ; [|cbn [fst snd]; auto].
+    destruct (balancedF_owns _ _ _ _ _ Bal EI) as [_ Sr]. destruct (balancedF_owns _ _ _ _ _ Bal EJ) as [_ Sb].
+    pose proof (add_base_m_spec compat r b s W) as R. pose proof (add_base_m_sane compat r b s Sr Sb) as Sd.
+    destruct (add_base_m compat r b s) as [[rc d] s']. cbn [fst snd] in *. destruct R as (W' & E' & C' & _ & O' & _).
+    split; [|apply E']. split; [exact W'|]. split.
+    + apply Forall_app. split; [exact Fa|]. constructor; [split; assumption|constructor].
+    + intros x. rewrite all_blocks_app, cnt_app. unfold all_blocks at 2. cbn [flat_map]. rewrite app_nil_r. rewrite (O' x), (B x). lia.
+  - (* remove base *)
+    destruct (nth_error objs i) as [r|] eqn:EI; [|cbn [fst snd]; auto]. destruct (nth_error objs j) as [b|] eqn:EJ; [|cbn [fst snd]; auto].
+    destruct (balancedF_owns _ _ _ _ _ Bal EI) as [_ Sr]. destruct (balancedF_owns _ _ _ _ _ Bal EJ) as [_ Sb].
+    pose proof (remove_base_m_spec dr r b s W) as R. pose proof (remove_base_m_sane dr r b s Sr Sb) as Sd.
+    destruct (remove_base_m dr r b s) as [[rc d] s']. cbn [fst snd] in *. destruct R as (W' & E' & C' & _ & O' & _).
+    split; [|apply E']. split; [exact W'|]. split.
+    + apply Forall_app. split; [exact Fa|]. constructor; [split; assumption|constructor].
+    + intros x. rewrite all_blocks_app, cnt_app. unfold all_blocks at 2. cbn [flat_map]. rewrite app_nil_r. rewrite (O' x), (B x). lia.
+  - (* free members *)
+    destruct (nth_error objs i) as [m|] eqn:EN; [|cbn [fst snd]; auto].
+    destruct (balancedF_owns _ _ _ _ _ Bal EN) as [O Sn].
+    pose proof (free_members_sane m s Sn) as Sn'.
+    destruct (free_members m s) as [m' s'] eqn:EF. cbn [fst snd] in *.
+    destruct (free_members_rel m s m' s' W O EF) as (Rl & Eb & C' & _ & _). drel Rl W' E' Q' N' H'.
+    split; [|apply E'].
+    split; [exact W'|]. split; [apply upd_Forall; [exact Fa|split; assumption]|].
+    intros x. pose proof (upd_blocks objs i m m' x EN) as U. rewrite Eb, cnt_nil in U. specialize (H' x). specialize (B x). lia.
+Qed.
+
+(* ---- slots *)
+Lemma upd_flat {A} (f : A -> list nat) (l : list A) : forall i a a' x, nth_error l i = Some a ->
+  cnt (flat_map f (upd l i a')) x + cnt (f a) x = cnt (flat_map f l) x + cnt (f a') x.
+Proof.
+  induction l as [|b r IH]; intros [|i] a a' x H; cbn in H; try discriminate.
+  - injection H as ->. cbn [upd flat_map]. rewrite !cnt_app. lia.
+  - cbn [upd flat_map]. rewrite !cnt_app. specialize (IH i a a' x H). lia.
+Qed.
+Lemma nth_flat {A} (f : A -> list nat) (l : list A) : forall i a x, nth_error l i = Some a -> cnt (f a) x <= cnt (flat_map f l) x.
+Proof.
+  induction l as [|b r IH]; intros [|i] a x H; cbn in H; try discriminate; cbn [flat_map]; rewrite cnt_app.
+  - injection H as ->. lia.
+  - specialize (IH i a x H). lia.
+Qed.
+Lemma upd_same {A} (l : list A) : forall i a, nth_error l i = Some a -> upd l i a = l.
+Proof. induction l as [|b r IH]; intros [|i] a H; cbn in *; try discriminate; [injection H as ->; reflexivity|f_equal; auto]. Qed.
+
+(* one step keeps the invariant and releases nothing that is not live *)
+Theorem qstep_balanced st op : qbalanced st -> qbalanced (qstep st op) /\ bad_frees (q_mem (qstep st op)) = bad_frees (q_mem st).
+Proof.
+  destruct st as [[[uris lists] strs] s]. unfold qbalanced, q_mem, q_uris, q_lists, q_strs. cbn [fst snd].
+  intros (W & Fa & B). destruct op as [h|pts bc t|stp nb i|i|i]; cbn [qstep].
+  - (* a URI step *)
+    pose proof (hstep_framed (fun x => cnt (list_blocks lists) x + cnt (str_blocks strs) x) uris s h) as R.
+    destruct (hstep csize (uris, s) h) as [uris' s']. cbn [fst snd] in *.
+    destruct R as ((W' & Fa' & B') & Bf'). { split; [exact W|]. split; [exact Fa|]. intros x. rewrite (B x). lia. }
+    split; [|exact Bf']. split; [exact W'|]. split; [exact Fa'|]. intros x. rewrite (B' x). lia.
+  - (* dissect *)
+    pose proof (dissect_m_balanced csize pts bc t s W) as R.
+    destruct (dissect_m csize pts bc t s) as [[items n|d] s']; cbn [fst snd].
+    + destruct R as (W' & E' & P' & _). split; [|apply E']. split; [exact W'|]. split; [exact Fa|].
+      intros x. apply cnt_Permutation with (x := x) in P'. rewrite cnt_app in P'. unfold list_blocks. rewrite flat_map_app, cnt_app. cbn [flat_map].
+      rewrite app_nil_r. specialize (B x). unfold L, list_blocks in *. lia.
+    + destruct R as (W' & E' & P' & _). split; [|apply E']. split; [exact W'|]. split; [exact Fa|].
+      intros x. apply cnt_Permutation with (x := x) in P'. specialize (B x). unfold L in *. lia.
+  - (* compose *)
+    destruct (nth_error lists i) as [l|]; [|cbn [fst snd]; auto].
+    pose proof (compose_m_balanced csize stp nb (erase_q l) s W) as R.
+    destruct (compose_m csize stp nb (erase_q l) s) as [[c|out b] s']; cbn [fst snd].
+    + destruct R as (W' & E' & P' & _). split; [|apply E']. split; [exact W'|]. split; [exact Fa|].
+      intros x. apply cnt_Permutation with (x := x) in P'. specialize (B x). unfold L in *. lia.
+    + destruct R as (W' & E' & P' & _). split; [|apply E']. split; [exact W'|]. split; [exact Fa|].
+      intros x. apply cnt_Permutation with (x := x) in P'. rewrite cnt_cons in P'. unfold str_blocks. rewrite flat_map_app, cnt_app. cbn [flat_map blk_list].
+      rewrite app_nil_r. specialize (B x). unfold L, str_blocks in *. lia.
+  - (* free list *)
+    destruct (nth_error lists i) as [l|] eqn:EN; [|cbn [fst snd]; auto]. cbn [fst snd].
+    assert (H : forall x, cnt (mqlist_blocks l) x <= L s x).
+    { intros x. rewrite (B x). pose proof (nth_flat mqlist_blocks lists i l x EN). unfold list_blocks. lia. }
+    destruct (free_query_list_m_rel l s W H) as (W' & E' & _ & _ & H').
+    split; [|apply E']. split; [exact W'|]. split; [exact Fa|].
+    intros x. pose proof (upd_flat mqlist_blocks lists i l [] x EN) as U. cbn [mqlist_blocks flat_map] in U. rewrite cnt_nil in U.
+    specialize (H' x). specialize (B x). unfold list_blocks in *. lia.
+  - (* free string *)
+    destruct (nth_error strs i) as [[b|]|] eqn:EN; try (cbn [fst snd]; auto). cbn [fst snd].
+    assert (Lb : 1 <= L s b).
+    { rewrite (B b). pose proof (nth_flat blk_list strs i (Some b) b EN) as X. cbn [blk_list] in X. rewrite cnt_self in X. unfold str_blocks. lia. }
+    destruct (free_blk_ok b s W Lb) as (W' & E' & _ & _ & H').
+    split; [|apply E']. split; [exact W'|]. split; [exact Fa|].
+    intros x. pose proof (upd_flat blk_list strs i (Some b) None x EN) as U. cbn [blk_list] in U. rewrite cnt_nil in U.
+    specialize (H' x). specialize (B x). unfold str_blocks in *. lia.
+Qed.
+
+Definition q_init (p : fault_plan) : qstate := ([], [], [], ms_init p).
+
+Lemma qrun_balanced ops : forall st, qbalanced st -> qbalanced (qrun ops st) /\ bad_frees (q_mem (qrun ops st)) = bad_frees (q_mem st).
+Proof.
+  unfold qrun. induction ops as [|op r IH]; intros st Bal; cbn [fold_left]; [auto|].
+  destruct (qstep_balanced st op Bal) as [B' Bf']. destruct (IH _ B') as [B'' Bf'']. split; [exact B''|congruence].
+Qed.
+
+(* any history from the empty store and the empty ledger, under any plan *)
+Theorem qhistory_balanced p ops : qbalanced (qrun ops (q_init p)) /\ bad_frees (q_mem (qrun ops (q_init p))) = 0.
+Proof.
+  apply qrun_balanced. split; [apply wf_init|]. split; [constructor|]. intros x. reflexivity.
+Qed.
+
+Lemma qbalanced_meaning st : qbalanced st <->
+  (wf (q_mem st) /\ Forall (fun m => consistent m /\ sane m) (q_uris st)
+   /\ Permutation (live_ids (q_mem st))
+        (flat_map muri_blocks (q_uris st) ++ flat_map mqlist_blocks (q_lists st) ++ flat_map blk_list (q_strs st))).
+Proof.
+  unfold qbalanced, all_blocks, list_blocks, str_blocks. rewrite cnt_Permutation. unfold L.
+  split; intros (a & b & c); (split; [exact a|split; [exact b|]]); intros x; specialize (c x); rewrite !cnt_app in *; lia.
+Qed.
+
+(* ---- releasing everything the store holds *)
+Definition qfree_all (nu nl ns : nat) : list qhop :=
+  map (fun i => QUri (HFree i)) (seq 0 nu) ++ map QFreeList (seq 0 nl) ++ map QFreeString (seq 0 ns).
+
+Lemma phase {A} (P : A -> Prop) (get : qstate -> list A) (OP : nat -> qhop) :
+  (forall st i a, qbalanced st -> nth_error (get st) i = Some a -> exists a', P a' /\ get (qstep st (OP i)) = upd (get st) i a') ->
+  forall k a st, qbalanced st -> a + k = length (get st) -> Forall P (firstn a (get st)) ->
+    Forall P (get (qrun (map OP (seq a k)) st)).
+Proof.
+  intros Hop. induction k as [|k IH]; intros a st Bal Hlen Fe.
+  - cbn [seq map qrun fold_left]. replace a with (length (get st)) in Fe by lia. rewrite firstn_all in Fe. exact Fe.
+  - cbn [seq map]. unfold qrun. cbn [fold_left].
+    destruct (nth_error (get st) a) as [x|] eqn:EN; [|apply nth_error_None in EN; lia].
+    destruct (Hop st a x Bal EN) as (a' & Pa' & Eg).
+    apply (IH (S a) (qstep st (OP a))).
+    + apply qstep_balanced. exact Bal.
+    + rewrite Eg, upd_length. lia.
+    + rewrite Eg. eapply firstn_upd_Forall; eauto.
+Qed.
+
+Lemma phase_keeps {B} (get2 : qstate -> B) (OP : nat -> qhop) :
+  (forall st i, get2 (qstep st (OP i)) = get2 st) -> forall l st, get2 (qrun (map OP l) st) = get2 st.
+Proof.
+  intros H. unfold qrun. induction l as [|i r IH]; intros st; cbn [map fold_left]; [reflexivity|]. rewrite IH. apply H.
+Qed.
+
+Lemma flat_map_nil {A} (f : A -> list nat) (l : list A) : Forall (fun a => f a = []) l -> flat_map f l = [].
+Proof. induction 1 as [|a r Ha _ IH]; [reflexivity|]. cbn [flat_map]. rewrite Ha, IH. reflexivity. Qed.
+
+Lemma op_free_uri st i m : qbalanced st -> nth_error (q_uris st) i = Some m ->
+  exists m', muri_blocks m' = [] /\ q_uris (qstep st (QUri (HFree i))) = upd (q_uris st) i m'.
+Proof.
+  destruct st as [[[uris lists] strs] s]. unfold qbalanced, q_mem, q_uris, q_lists, q_strs. cbn [fst snd].
+  intros (W & Fa & B) EN. cbn [qstep hstep]. rewrite EN.
+  assert (O : owns m s).
+  { destruct (nth_Forall _ _ _ _ Fa EN) as [C _]. split; [exact C|]. intros x. rewrite (B x). pose proof (nth_blocks _ _ _ x EN). lia. }
+  destruct (free_members m s) as [m' s'] eqn:EF. destruct (free_members_rel m s m' s' W O EF) as (_ & Eb & _).
+  exists m'. split; [exact Eb|reflexivity].
+Qed.
+Lemma op_free_list st i l : qbalanced st -> nth_error (q_lists st) i = Some l ->
+  exists l', l' = [] /\ q_lists (qstep st (QFreeList i)) = upd (q_lists st) i l'.
+Proof.
+  destruct st as [[[uris lists] strs] s]. unfold q_lists. cbn [fst snd]. intros _ EN. cbn [qstep]. rewrite EN. exists []. auto.
+Qed.
+Lemma op_free_string st i o : qbalanced st -> nth_error (q_strs st) i = Some o ->
+  exists o', o' = None /\ q_strs (qstep st (QFreeString i)) = upd (q_strs st) i o'.
+Proof.
+  destruct st as [[[uris lists] strs] s]. unfold q_strs. cbn [fst snd]. intros _ EN. cbn [qstep]. rewrite EN. exists None. split; [reflexivity|].
+  destruct o as [b|]; cbn [fst snd]; [reflexivity|]. symmetry. apply upd_same. exact EN.
+Qed.
+
+Lemma keep_uri_step st i : q_lists (qstep st (QUri (HFree i))) = q_lists st /\ q_strs (qstep st (QUri (HFree i))) = q_strs st.
+Proof. destruct st as [[[uris lists] strs] s]. cbn [qstep]. destruct (hstep csize (uris, s) (HFree i)). auto. Qed.
+Lemma keep_list_step st i : q_uris (qstep st (QFreeList i)) = q_uris st /\ q_strs (qstep st (QFreeList i)) = q_strs st.
+Proof. destruct st as [[[uris lists] strs] s]. cbn [qstep]. destruct (nth_error lists i); auto. Qed.
+Lemma keep_string_step st i : q_uris (qstep st (QFreeString i)) = q_uris st /\ q_lists (qstep st (QFreeString i)) = q_lists st.
+Proof. destruct st as [[[uris lists] strs] s]. cbn [qstep]. destruct (nth_error strs i) as [[b|]|]; auto. Qed.
+
+Theorem qhistory_then_release_leaves_nothing p ops :
+  let st := qrun ops (q_init p) in
+  let st' := qrun (qfree_all (length (q_uris st)) (length (q_lists st)) (length (q_strs st))) st in
+  ms_live (q_mem st') = [] /\ bad_frees (q_mem st') = 0.
+Proof.
+  cbv zeta. destruct (qhistory_balanced p ops) as [Bal Bf]. set (st := qrun ops (q_init p)) in *. clearbody st.
+  unfold qfree_all, qrun. rewrite !fold_left_app. fold (qrun (map (fun i => QUri (HFree i)) (seq 0 (length (q_uris st)))) st).
+  set (st1 := qrun (map (fun i => QUri (HFree i)) (seq 0 (length (q_uris st)))) st).
+  fold (qrun (map QFreeList (seq 0 (length (q_lists st)))) st1). set (st2 := qrun (map QFreeList (seq 0 (length (q_lists st)))) st1).
+  fold (qrun (map QFreeString (seq 0 (length (q_strs st)))) st2). set (st3 := qrun (map QFreeString (seq 0 (length (q_strs st)))) st2).
+  (* phase 1 *)
+  assert (U1 : Forall (fun m => muri_blocks m = []) (q_uris st1)).
+  { apply (phase (fun m => muri_blocks m = []) q_uris (fun i => QUri (HFree i))); [intros; eapply op_free_uri; eauto|exact Bal|lia|constructor]. }
+  assert (L1 : q_lists st1 = q_lists st) by (apply (phase_keeps q_lists (fun i => QUri (HFree i))); intros; apply keep_uri_step).
+  assert (S1 : q_strs st1 = q_strs st) by (apply (phase_keeps q_strs (fun i => QUri (HFree i))); intros; apply keep_uri_step).
+  destruct (qrun_balanced (map (fun i => QUri (HFree i)) (seq 0 (length (q_uris st)))) st Bal) as [Bal1 Bf1]. fold st1 in Bal1, Bf1.
+  (* phase 2 *)
+  assert (L2 : Forall (fun l => l = []) (q_lists st2)).
+  { apply (phase (fun l => l = []) q_lists QFreeList); [intros; eapply op_free_list; eauto|exact Bal1|rewrite L1; reflexivity|constructor]. }
+  assert (U2 : q_uris st2 = q_uris st1) by (apply (phase_keeps q_uris QFreeList); intros; apply keep_list_step).
+  assert (S2 : q_strs st2 = q_strs st1) by (apply (phase_keeps q_strs QFreeList); intros; apply keep_list_step).
+  destruct (qrun_balanced (map QFreeList (seq 0 (length (q_lists st)))) st1 Bal1) as [Bal2 Bf2]. fold st2 in Bal2, Bf2.
+  (* phase 3 *)
+  assert (S3 : Forall (fun o => o = None) (q_strs st3)).
+  { apply (phase (fun o => o = None) q_strs QFreeString); [intros; eapply op_free_string; eauto|exact Bal2|rewrite S2, S1; reflexivity|constructor]. }
+  assert (U3 : q_uris st3 = q_uris st2) by (apply (phase_keeps q_uris QFreeString); intros; apply keep_string_step).
+  assert (L3 : q_lists st3 = q_lists st2) by (apply (phase_keeps q_lists QFreeString); intros; apply keep_string_step).
+  destruct (qrun_balanced (map QFreeString (seq 0 (length (q_strs st)))) st2 Bal2) as [Bal3 Bf3]. fold st3 in Bal3, Bf3.
+  split; [|congruence].
+  destruct Bal3 as (_ & _ & B3). apply perm_nil_live. apply cnt_Permutation. intros x. specialize (B3 x).
+  rewrite U3, U2, L3 in B3. unfold all_blocks, list_blocks, str_blocks in B3.
+  rewrite (flat_map_nil muri_blocks _ U1) in B3.
+  rewrite (flat_map_nil mqlist_blocks (q_lists st2)) in B3.
+  2:{ eapply Forall_impl; [|exact L2]. intros l ->. reflexivity. }
+  rewrite (flat_map_nil blk_list (q_strs st3)) in B3.
+  2:{ eapply Forall_impl; [|exact S3]. intros o ->. reflexivity. }
+  unfold L in B3. rewrite B3. reflexivity.
+Qed.
+
+(* one concrete shape, spelled out: dissect a text, compose the list, free the string, free the list -- whatever the
+   two calls return, under any plan, nothing is outstanding and nothing was released twice *)
+Theorem history_dissect_compose_free p pts bc stp nb t :
+  match dissect_m csize pts bc t (ms_init p) with
+  | (DMOk items n, s1) =>
+    let '(r, s2) := compose_m csize stp nb (erase_q items) s1 in
+    let s3 := free_string_m r s2 in
+    let s4 := free_query_list_m items s3 in
+    ms_live s4 = [] /\ bad_frees s4 = 0
+  | (DMMalloc _, s1) => ms_live s1 = [] /\ bad_frees s1 = 0
+  end.
+Proof.
+  pose proof (dissect_m_balanced csize pts bc t (ms_init p) (wf_init p)) as R.
+  destruct (dissect_m csize pts bc t (ms_init p)) as [[items n|d] s1] eqn:ED.
+  - destruct R as (W1 & E1 & P1 & ND & _). cbn [ms_init live_ids ms_live map] in P1. rewrite app_nil_r in P1.
+    pose proof (compose_m_release csize stp nb (erase_q items) s1 W1) as R2.
+    destruct (compose_m csize stp nb (erase_q items) s1) as [r s2]. cbv zeta in *. destruct R2 as (W3 & P3 & B3 & _).
+    assert (IN : incl (mqlist_blocks items) (live_ids (free_string_m r s2))).
+    { intros b Hb. apply (Permutation_in b (Permutation_sym P3)). apply (Permutation_in b (Permutation_sym P1)). exact Hb. }
+    destruct (free_query_list_m_releases items _ W3 ND IN) as (W4 & P4 & B4 & _). cbv zeta in *.
+    split; [|rewrite B4, B3; apply E1].
+    apply perm_nil_live. apply (Permutation_app_inv_l (mqlist_blocks items)). rewrite app_nil_r, <- P4, P3. exact P1.
+  - destruct R as (_ & E1 & P1 & _). split; [apply perm_nil_live; exact P1|apply E1].
+Qed.
+End History.
+
+Lemma is_oom_meaning r : is_oom r = true <-> exists d, r = DMMalloc d.
+Proof.
+  destruct r as [items n|d]; cbn [is_oom]; split.
+  - discriminate.
+  - intros (d & H). discriminate.
+  - intros _. eexists. reflexivity.
+  - reflexivity.
+Qed.
